@@ -396,8 +396,43 @@ def _deep_wrappers(w: int, where: int, cfg: int) -> bool:
     return result(ok, depth >= 5)
 
 
+# ---- every directive location the SDL parser accepts is reported by introspection
+def all_locations():
+    from py_gql.lang import parser as P
+    return tuple(P.RUNTIME_DIRECTIVE_LOCATIONS) + tuple(P.SCHEMA_DIRECTIVE_LOCATONS)
+
+
+def _directive_locations(loc: int, second: int, cfg: int) -> bool:
+    """
+    pre: 0 <= loc < 19 and -1 <= second < 19 and second != loc and 0 <= cfg <= 1
+    pre: shard_of(loc)
+    post: _
+    """
+    L, S2, C = concrete_int(loc, 0, 18), concrete_int(second, -1, 18), concrete_int(cfg, 0, 1)
+    with untraced():
+        names = all_locations()
+        if L >= len(names) or S2 >= len(names):
+            return result(True, False)
+        locs = [names[L]] + ([names[S2]] if S2 >= 0 else [])
+        if known.c15_variable_definition_location(locs):
+            return result(True, False)
+        schema = build_schema("directive @v(a: Int) on %s type Query { a: Int }" % " | ".join(locs))
+        res = graphql_blocking(schema, introspection_query()) if C == 0 else process_graphql_query(schema, introspection_query(), executor_cls=Executor)   # an exception propagates
+        if res.errors:
+            return result(False, True)
+        d = [x for x in res.data["__schema"]["directives"] if x["name"] == "v"]
+        ok = len(d) == 1 and sorted(d[0]["locations"]) == sorted(locs)
+        enum = [t for t in res.data["__schema"]["types"] if t["name"] == "__DirectiveLocation"][0]
+        ok = ok and all(x in [v["name"] for v in enum["enumValues"]] for x in locs)
+    return result(ok, True)
+
+
 
 CONDITIONS = [
+    Cond(name="directive_locations", fn=_directive_locations, quick=120, thorough=120, shards_quick=10, shards_thorough=10,
+         bound="a directive declared on every location the SDL parser accepts (read from the live parser tables), alone and paired with every other location, x 2 executors: the standard introspection query "
+               "answers (no exception) and reports exactly the declared locations, each of which is a value of __DirectiveLocation",
+         symbolic={"loc,second,cfg": "choice"}, assumptions=["known finding C15-variable-definition-location excluded"], witness={"loc": 3, "second": 0, "cfg": 0}),
     Cond(name="deep_wrappers", fn=_deep_wrappers, quick=60, thorough=60,
          bound="13 type expressions with 0..7 wrappers (the deepest the standard introspection query reports: 7 ofType levels) at 4 positions (field type, argument, input field, directive argument) x 2 "
                "executors: the reference read back from introspection_query() spells exactly the declared type, down to the named type",
